@@ -99,9 +99,19 @@ static void step()
   }
   long long logical[65];
   long long sum = 0, sumsq = 0;
+  // family 0: every window element is its own symbolic value.  family 2: the window alternates between two symbolic values
+  // (a reachable two-parameter family: feed x, y, x, y, ...), which keeps the largest windows within the solvers' reach
+  const long fam = (long)vf_param("family");
+  long long dx = 0, dy = 0;
+  if (fam == 2) {
+    dx = vf_i64(D[0]);
+    dy = vf_i64(D[1]);
+    vf_assume((dx <= (long long)LIM) & (dx >= -(long long)LIM));
+    vf_assume((dy <= (long long)LIM) & (dy >= -(long long)LIM));
+  }
   for (size_t k = 0; k < fill; ++k) {
-    long long d = vf_i64(D[k]);
-    vf_assume((d <= (long long)LIM) & (d >= -(long long)LIM));
+    long long d = fam == 2 ? (k % 2 ? dy : dx) : vf_i64(D[k]);
+    if (fam != 2) vf_assume((d <= (long long)LIM) & (d >= -(long long)LIM));
     s.data_.push_back(d);
     sum += d;
     if constexpr (VAR) {
